@@ -292,18 +292,25 @@ def body_sections(ctx):
     which = ctx.choose(2, 'section') + 1          # the failing code is section 1 or section 2
     threaded = bool(ctx.choose(2, 'threaded'))
     tracer = ('none', 'native')[ctx.choose(2, 'tracer')]
+    entry = ('run', 'call')[ctx.choose(2, 'entry')]     # the section fails when run | defines a function that fails when called
     code = sc.MODES[mode] + "\n"
+    if entry == 'call':
+        if mode in sc.COMPILE_FAIL:
+            return
+        code = "def target():\n" + "\n".join("    " + l for l in sc.MODES[mode].split("\n")) + "\n    return 1\n"
     parts = [pro, "ok1 = 1\nok1b = 2\n", "ok2 = 1\n", "ok3 = 1\n"]
     parts[which] = code
     full = parts[0] + "".join("##### Part %d\n%s" % (i, parts[i]) for i in (1, 2, 3))
     first_line = full[:full.index(code)].count("\n") if which == 1 else \
         (parts[0] + "##### Part 1\n" + parts[1] + "##### Part 2\n").count("\n")
     case = {'mode': mode, 'section': which, 'prologue_lines': pro.count("\n"), 'threaded': threaded, 'tracer': tracer,
-            'file': full}
-    ctx.observe(repr((mode, which, pro, threaded, tracer)))
-    ctx.mark_nontrivial(repr((mode, which, pro, threaded, tracer)))
+            'file': full, 'entry': entry}
+    ctx.observe(repr((mode, which, pro, threaded, tracer, entry)))
+    ctx.mark_nontrivial(repr((mode, which, pro, threaded, tracer, entry)))
     ctx.set_sample(case)
-    rcls, rline = sc.reference_outcome(code, 'answer.py')
+    rcls, rline = sc.reference_outcome(code if entry == 'run' else code + "target()\n", 'answer.py')
+    if entry == 'call' and rline is not None and rline > code.count("\n"):
+        rline = None          # (the reference's own call line is not a line of the section)
     sc.cmds.clear_report()
     sc.cmds.contextualize_report(sc.Submission(files={'answer.py': full}, main_file='answer.py', main_code=full))
     sb = sc.sb_cmds.get_sandbox()
@@ -319,6 +326,13 @@ def body_sections(ctx):
             n0 = len(sc.MAIN_REPORT.feedback)
             ctx.step(('run section', mode))
             sc.sb_cmds.run()
+        if entry == 'call':
+            if sc.sb_cmds.get_exception() is not None:
+                ctx.fail({'symptom': 'defining the student function failed', 'mode': mode}, case=case)
+                return
+            n0 = len(sc.MAIN_REPORT.feedback)
+            ctx.step(("call('target') in the section", mode))
+            sc.sb_cmds.call('target')
         failed = [f for f in sc.MAIN_REPORT.feedback[n0:] if f.category == 'runtime']
         exc = sc.sb_cmds.get_exception()
         next_section()
